@@ -45,7 +45,7 @@ StrLen(v) == CASE v = "" -> 0 [] v = "x" -> 1 [] v = "yz" -> 2 [] v = "e9" -> 2 
                [] v = "10.0.0.0" -> 8 [] v = "::1" -> 3 [] v = "192.168.0.1" -> 11
 IdLen(v) == CASE v = "req.http.A" -> 10 [] v = "req.http.B" -> 10 [] v = "var.x" -> 5 [] v = "var.p" -> 5 [] v = "var.q" -> 5
               [] v = "STRING" -> 6 [] v = "INTEGER" -> 7 [] v = "BOOL" -> 4 [] v = "f" -> 1 [] v = "s" -> 1 [] v = "l" -> 1 [] v = "l:" -> 2
-              [] v = "std.itoa" -> 8 [] v = "std.collect" -> 11 [] v = "lookup" -> 6 [] v = "a" -> 1 [] v = "b" -> 1 [] v = "d" -> 1
+              [] v = "std.itoa" -> 8 [] v = "std.collect" -> 11 [] v = "std.tolower" -> 11 [] v = "std.toupper" -> 11 [] v = "std.strstr" -> 10 [] v = "lookup" -> 6 [] v = "a" -> 1 [] v = "b" -> 1 [] v = "d" -> 1
               [] v = "t" -> 1 [] v = "p" -> 1 [] v = "r" -> 1 [] v = "random" -> 6 [] v = "host" -> 4 [] v = "port" -> 4 [] v = "probe" -> 5
               [] v = "request" -> 7 [] v = "timeout" -> 7 [] v = "quorum" -> 6 [] v = "backend" -> 7 [] v = "weight" -> 6
               [] v = "vcl_recv" -> 8
@@ -284,21 +284,23 @@ DecF(kd) ==
     [] kd = "ifx" -> <<D("expr", "c", ""), D("expr", "a", ""), D("expr", "b", "")>>
 
 UnknownTok == Tok("UNKNOWN", 0, 0, "")
-\* decoder.go peekFrame: the type of the next frame; UNKNOWN when fewer than 3 bytes are left
+\* decoder.go peekFrame: the type of the next frame; UNKNOWN when fewer than 3 bytes are left.  It looks at type
+\* and 16-bit length only: the header of a long value (7 bytes) cut inside its 32-bit length still shows its type
 Peek(s, p) == IF p > Len(s) THEN "UNKNOWN"
-              ELSE IF s[p].part # "" THEN "UNKNOWN"
+              ELSE IF s[p].part \in {"hdr1", "hdr2"} THEN "UNKNOWN"
               ELSE s[p].t
 \* decoder.go nextFrame: FIN is sticky; at the end of input an UNKNOWN frame is returned for ever;
-\* a header cut after its type byte or inside its length is UNKNOWN (io.ReadFull)
+\* a header cut after its type byte or inside its 16-bit or 32-bit length is UNKNOWN (io.ReadFull)
 Next(s, p) == IF p > Len(s) THEN [tok |-> UnknownTok, p |-> p, eof |-> TRUE]
               ELSE IF s[p].t = "FIN" THEN [tok |-> s[p], p |-> p, eof |-> FALSE]
-              ELSE IF s[p].part \in {"hdr1", "hdr2"} THEN [tok |-> UnknownTok, p |-> p + 1, eof |-> FALSE]
+              ELSE IF s[p].part \in {"hdr1", "hdr2", "hdr3", "hdr4", "hdr5", "hdr6"} THEN [tok |-> UnknownTok, p |-> p + 1, eof |-> FALSE]
               ELSE [tok |-> s[p], p |-> p + 1, eof |-> FALSE]
 
 R(r, p, n) == [r |-> r, p |-> p, n |-> n]
 \* Frame.Read + the access to the payload each leaf decoder makes
 ReadLeaf(tok, t) ==
   IF tok.t # t THEN "err"                                   \* typeMismatch
+  ELSE IF tok.part = "ext" THEN "desync"                    \* length bytes overwritten with FF FF: the payload is read as a 32-bit length
   ELSE IF tok.len < tok.sz THEN "err"                       \* payload cut short (end of input): io.ReadFull fails
   ELSE IF tok.len > tok.sz THEN "desync"                    \* the rest of the payload would be read as frames
   ELSE IF t = "BOOL_VALUE" /\ tok.sz < 1 THEN "err"         \* a zero-length payload is fine for every other leaf
@@ -406,7 +408,29 @@ EComp == {[k |-> "prefix", op |-> Op("!"), right |-> Id("req.http.A")],
         \cup (IF Thorough THEN {Infix("~", Id("req.http.A"), Str("")), [k |-> "group", e |-> Str("")],
                                 [k |-> "ifx", c |-> Infix("==", Id("req.http.A"), Str("x")), a |-> IntL("1"), b |-> IntL("10")],
                                 [k |-> "prefix", op |-> Op("-"), right |-> IntL("1")]} ELSE {})
-Exprs == ELeaf \cup EComp
+(* Bounded-depth enumeration: every composite kind over every composite kind (depth 2); operands of one parent   *)
+(* are DIFFERENT composites (kind, size, contents), so that a child encoded into the place of a sibling,       *)
+(* reordered or aliased shows in the decoded tree.  An infix operand of an operator is parenthesised (W): that *)
+(* is what the parser needs to build this tree.                                                                *)
+EA == Id("req.http.A")
+EB == Id("req.http.B")
+Pre(e) == [k |-> "prefix", op |-> Op("!"), right |-> e]
+Grp(e) == [k |-> "group", e |-> e]
+Ifx(c, a, b) == [k |-> "ifx", c |-> c, a |-> a, b |-> b]
+R1 == <<Pre(EA), Grp(Infix("==", EB, Str("x"))), Infix("+", Str("yz"), EB), Ifx(EA, Str("x"), Str("yz")),
+        Fcx("std.tolower", <<EA>>), Fcx("std.toupper", <<EB>>), Fcx("std.strstr", <<EB, Str("yz")>>)>>
+R1Set == {R1[i] : i \in 1..Len(R1)}
+Cyc(i) == ((i - 1) % Len(R1)) + 1
+W(c) == IF c.k = "infix" THEN Grp(c) ELSE c
+DiffPairs == {q \in R1Set \X R1Set : q[1] # q[2]}
+D2 == {Pre(W(c)) : c \in R1Set} \cup {Grp(c) : c \in R1Set}
+      \cup {Infix("&&", W(q[1]), W(q[2])) : q \in DiffPairs}
+      \cup {Ifx(R1[i], R1[Cyc(i + 1)], R1[Cyc(i + 2)]) : i \in 1..Len(R1)} \cup {Ifx(R1[Cyc(i + 2)], R1[Cyc(i + 1)], R1[i]) : i \in 1..Len(R1)}
+      \cup {Fcx("std.strstr", <<q[1], q[2]>>) : q \in DiffPairs}
+      \cup {Fcx("std.strstr", <<c, Str("x")>>) : c \in R1Set} \cup {Fcx("std.strstr", <<EA, c>>) : c \in R1Set}
+      \cup {Fcx("std.strstr", <<R1[i], R1[Cyc(i + 3)], R1[Cyc(i + 5)]>>) : i \in 1..Len(R1)}
+PairArgs(i) == <<R1[i], R1[Cyc(i + 1)]>>
+Exprs == ELeaf \cup EComp \cup D2
 
 Set(op, e) == [k |-> "set", ident |-> Id("req.http.A"), op |-> Op(op), value |-> e]
 Ret(hp, e) == [k |-> "return", hp |-> Bool(hp), expr |-> e]
@@ -423,6 +447,24 @@ Simple ==
   \cup {[k |-> "synthetic64", value |-> Str("eA==")]}
   \cup {[k |-> "goto", dest |-> Id("l")], [k |-> "label", name |-> Id("l:")]}
   \cup {Ret(FALSE, Nil), Ret(TRUE, Id("lookup")), Ret(FALSE, Id("lookup")), Ret(FALSE, Bool(TRUE))}
+Deep ==
+  UNION {{[k |-> "call", sub |-> Id("s"), args |-> PairArgs(i)],
+          [k |-> "fcall", fn |-> Id("std.collect"), args |-> PairArgs(i)],
+          [k |-> "fcall", fn |-> Id("std.collect"), args |-> <<R1[i], R1[Cyc(i + 2)], R1[Cyc(i + 4)]>>],
+          [k |-> "error", code |-> IntL("401"), arg |-> R1[i]],
+          [k |-> "declare", name |-> Id("var.x"), vtype |-> Id("STRING"), value |-> R1[i]],
+          [k |-> "add", ident |-> Id("req.http.A"), op |-> Op("="), value |-> R1[i]],
+          [k |-> "log", value |-> R1[i]], [k |-> "synthetic", value |-> R1[i]],
+          Ret(TRUE, R1[i])} : i \in 1..Len(R1)}
+  \cup {Ret(FALSE, R1[i]) : i \in {j \in 1..Len(R1) : R1[j].k # "group"}}   \* `return (e);` is a return with parentheses, not a group
+\* a value of 65536 bytes (7-byte header) at every position the decoder finds by PEEKING: declare value, return
+\* expression, error argument, first call argument, left operand of an infix
+LongLits ==
+  {[k |-> "declare", name |-> Id("var.x"), vtype |-> Id("STRING"), value |-> Str("S65536")],
+   Ret(FALSE, Str("S65536")),
+   [k |-> "error", code |-> IntL("401"), arg |-> Str("S65536")],
+   [k |-> "call", sub |-> Id("s"), args |-> <<Str("S65536")>>],
+   Set("=", Infix("+", Str("S65536"), EB))}
 Blk(ss) == [k |-> "block", stmts |-> ss]
 Esi == [k |-> "esi"]
 If(kw, then, elifs, els) == [k |-> "if", keyword |-> Str(kw), cond |-> Id("req.http.A"), then |-> then, elifs |-> elifs, else |-> els]
@@ -441,7 +483,8 @@ Switches == {Sw(<<Case(CTest("==", "x"), <<Esi, Break>>, FALSE)>>, "d-1"),
              Sw(<<Case(CTest("==", "x"), <<Break>>, FALSE), Case(Nil, <<Break>>, FALSE)>>, "d1"),
              Sw(<<Case(CTest("~", "x"), <<[k |-> "fallthrough"]>>, TRUE), Case(CTest("==", "yz"), <<Esi, Break>>, FALSE), Case(Nil, <<Esi, Break>>, FALSE)>>, "d2"),
              Sw(<<Case(Nil, <<Break>>, FALSE), Case(CTest("==", ""), <<Break>>, FALSE)>>, "d0")}
-Stmts == Simple \cup Ifs \cup Switches \cup {Blk(<<Esi>>), Blk(<<>>), Blk(<<Blk(<<Esi>>)>>)}
+Stmts == Simple \cup Deep \cup LongLits \cup Ifs \cup Switches \cup {Blk(<<Esi>>), Blk(<<>>), Blk(<<Blk(<<Esi>>)>>)}
+         \cup {Blk(<<If("if", Blk(<<Esi>>), <<>>, Nil), Sw(<<Case(CTest("==", "x"), <<Break>>, FALSE)>>, "d-1"), Set("=", EB)>>)}
          \cup {[k |-> "import", name |-> Id("a")], [k |-> "include", module |-> Str("m")]}
 
 Cidr(inv, ip, m) == [k |-> "cidr", inverse |-> inv, ip |-> [k |-> "ip", v |-> ip], mask |-> m]
@@ -496,6 +539,9 @@ Muts(s) ==
   {NoMut}
   \cup {[m |-> "cut", i |-> i, part |-> pt, t |-> "", kk |-> 0] : i \in 0..(Len(s) - 1), pt \in {"", "hdr1", "hdr2"}}
   \cup {[m |-> "cut", i |-> i, part |-> "pay", t |-> "", kk |-> 0] : i \in {j \in 0..(Len(s) - 1) : s[j + 1].len >= 2}}
+  \cup {[m |-> "cut", i |-> i, part |-> pt, t |-> "", kk |-> 0] :
+          i \in {j \in 0..(Len(s) - 1) : HdrLen(s[j + 1]) = 7}, pt \in {"hdr3", "hdr4", "hdr5", "hdr6"}}   \* inside the 32-bit length
+  \cup {[m |-> "ext", i |-> i, part |-> "", t |-> "", kk |-> 0] : i \in {j \in 1..Len(s) : s[j].t \in LeafTypes /\ s[j].sz < 65535}}
   \cup {[m |-> "sub", i |-> i, part |-> "", t |-> t, kk |-> 0] : i \in 1..Len(s), t \in SubTypes}
   \cup {[m |-> "shrink", i |-> i, part |-> "", t |-> "", kk |-> kk] :
           i \in {j \in 1..Len(s) : s[j].t \in LeafTypes}, kk \in {0, 1, 7}}
@@ -507,18 +553,25 @@ ApplyMut(s, mu) ==
                        THEN Append(SubSeq(s, 1, mu.i), [s[mu.i + 1] EXCEPT !.len = @ \div 2])
                        ELSE Append(SubSeq(s, 1, mu.i), [s[mu.i + 1] EXCEPT !.part = mu.part, !.len = 0])
     [] mu.m = "sub" -> [s EXCEPT ![mu.i] = [@ EXCEPT !.t = mu.t]]
+    \* the 16-bit length of a short value is overwritten with FF FF: the decoder takes the next 4 bytes for a 32-bit length;
+    \* with fewer than 4 bytes left this is a long-value header cut inside its length, otherwise the framing is lost
+    [] mu.m = "ext" -> IF s[mu.i].len + ByteLen(SubSeq(s, mu.i + 1, Len(s))) < 4
+                       THEN Append(SubSeq(s, 1, mu.i - 1), [s[mu.i] EXCEPT !.part = "hdr3", !.len = 0])
+                       ELSE [s EXCEPT ![mu.i] = [@ EXCEPT !.part = "ext"]]
     [] mu.m = "shrink" -> [s EXCEPT ![mu.i] = [@ EXCEPT !.sz = mu.kk, !.len = mu.kk]]
 \* substituting the type changes how the bytes that follow are framed: a leaf payload under a container or marker
 \* type is read as frames, bytes after END/FIN shift - the model only predicts the cases where the framing survives
 Framed(s, mu) ==
-  mu.m # "sub" \/
-  LET o == s[mu.i] IN
+  IF mu.m = "ext" THEN s[mu.i].len + ByteLen(SubSeq(s, mu.i + 1, Len(s))) < 4
+  ELSE IF mu.m # "sub" THEN TRUE
+  ELSE LET o == s[mu.i] IN
     /\ ~(o.t \in {"END", "FIN"}) /\ ~(mu.t \in {"END", "FIN"})     \* markers have no length bytes
     /\ IF mu.t \in LeafTypes THEN (o.t \in LeafTypes \/ o.sz = 0)   \* a container's length would become a payload length
        ELSE o.len = 0                                               \* a payload would be read as frames
 
 MutNodes == IF MutBases = "all" THEN Nodes \ Longs
-            ELSE {CHOOSE x \in (Nodes \ Longs) : x.k = kk /\ (\A y \in (Nodes \ Longs) : y.k = kk => Len(Enc(y)) <= Len(Enc(x))) :
+            ELSE LongLits \cup
+                 {CHOOSE x \in (Nodes \ Longs) : x.k = kk /\ (\A y \in (Nodes \ Longs) : y.k = kk => Len(Enc(y)) <= Len(Enc(x))) :
                     kk \in {y.k : y \in (Nodes \ Longs)}}
 
 VARIABLES node, mut
